@@ -56,13 +56,13 @@ def analyse_entry_fn(f):
     calls = A.find_all(f["body"], lambda n: isinstance(n, dict) and n.get("x") and n.get("k") in ("call", "mcall"))
     body["n_calls"] = len(calls)
     if inner["k"] == "mcall" and inner["method"] == "dispatch" and A.path_ids(inner["recv"]) == ["msg"] and len(inner["args"]) == 2:
-        c = A.strip_expr(inner["args"][0])
+        c = A.resolve(inner["args"][0], lets)
         if c["k"] != "ref":
             raise G.Unrecognised(f"entry point {f['name']}: contract not passed by reference")
-        cc = ctor_call(c["expr"])
+        cc = ctor_call(A.resolve(c["expr"], lets))
         if cc is None:
             raise G.Unrecognised(f"entry point {f['name']}: contract is not built with ::new()")
-        body.update({"form": "dispatch", "ctor": cc, "ctx": tuple_of_params(inner["args"][1])})
+        body.update({"form": "dispatch", "ctor": cc, "ctx": tuple_of_params(A.resolve(inner["args"][1], lets))})
     elif inner["k"] == "call" and A.path_ids(inner["func"]) and A.path_ids(inner["func"])[-1] == "dispatch_reply":
         args = []
         for a in inner["args"]:
